@@ -187,9 +187,15 @@ impl Compiler
 			let resolved = resolver::resolve(declaration);
 			if let Ok(declaration) = &resolved
 			{
-				// If code generation fails, bail out.
-				self.generator.declare(&declaration)?;
-				self.fetch_declared_constants(&declaration);
+				match self.generator.declare(&declaration)
+				{
+					Ok(()) => self.fetch_declared_constants(&declaration),
+					// A declaration that depends on one that was rejected
+					// cannot be generated, but the errors are already known.
+					Err(_) if acc.is_err() => (),
+					// Otherwise, if code generation fails, bail out.
+					Err(error) => return Err(error),
+				}
 			}
 			Ok(resolver::accumulate(acc, resolved))
 		})
